@@ -482,6 +482,28 @@ func registerNatives(in *Interp) {
 		"(*sync.RWMutex).RLock", "(*sync.RWMutex).RUnlock", "(*sync.WaitGroup).Add", "(*sync.WaitGroup).Done", "(*sync.WaitGroup).Wait"} {
 		n[f] = nop
 	}
+	n["(*sync/atomic.Value).Load"] = func(in *Interp, fn *ssa.Function, args []Value) Value {
+		return in.load(args[0].(Ptr).sub(0))
+	}
+	n["(*sync/atomic.Value).Store"] = func(in *Interp, fn *ssa.Function, args []Value) Value {
+		in.store(args[0].(Ptr).sub(0), args[1])
+		return nil
+	}
+	n["(*sync/atomic.Value).Swap"] = func(in *Interp, fn *ssa.Function, args []Value) Value {
+		p := args[0].(Ptr).sub(0)
+		old := in.load(p)
+		in.store(p, args[1])
+		return old
+	}
+	n["(*sync/atomic.Value).CompareAndSwap"] = func(in *Interp, fn *ssa.Function, args []Value) Value {
+		p := args[0].(Ptr).sub(0)
+		eq := in.valEq(in.load(p), args[1])
+		if in.branch(eq) {
+			in.store(p, args[2])
+			return in.tb.True
+		}
+		return in.tb.False
+	}
 	n["(*sync.Mutex).TryLock"] = func(in *Interp, fn *ssa.Function, args []Value) Value { return in.tb.True }
 	n["(*sync.Once).Do"] = func(in *Interp, fn *ssa.Function, args []Value) Value {
 		p := args[0].(Ptr)
